@@ -129,6 +129,36 @@ def check(repo, res, tier):
                 'resume does not advance the clock exactly once')
     else:
         res.ok('C11.U2', resume, resume.node, 'resume only calls env.run(until=...)')
+    # ---- U8: what start() does after the clock has stopped -------------------
+    res.rule('C11.U8', 'after env.run has returned, start() only reports (collate, tables, output file): it changes no actor, '
+                       'so a pause is invisible to the resumed run')
+    sfr = Frame(start)
+    body = start.node.body
+    last_run = -1
+    for i, st in enumerate(body):
+        if any(isinstance(x, ast.Call) and call_name(x) == 'run' and isinstance(x.func, ast.Attribute)
+               and canon.c(x.func.value, sfr).endswith('env') for x in ast.walk(st)):
+            last_run = i
+    tail_calls = [x for st in body[last_run + 1:] for x in ast.walk(st) if isinstance(x, ast.Call)] if last_run >= 0 else []
+    from .purity import check_pure, REPORTING, QUERIES
+    n_tail = 0
+    for cnode in tail_calls:
+        if _is_logging(cnode) or call_name(cnode) in ('collate_events', 'RuntimeError', 'str', 'len', 'print'):
+            continue
+        if isinstance(cnode.func, ast.Attribute) and '_hdf5_store' in ast.unparse(cnode.func):
+            continue
+        cals, exact = repo.resolve_call(cnode, start)
+        for cal in cals:
+            if cal.qual in REPORTING or cal.qual in QUERIES or cal.name == '_compose_hdf5_output':
+                continue
+            n_tail += 1
+            check_pure(repo, res, 'C11.U8', [cal.qual],
+                       'it is called by start() after the clock has stopped -- also at a pause (start(runtime=k)) -- so the '
+                       'resumed run continues from a changed state')
+    if last_run < 0:
+        res.bad('C11.U8', start, start.node, 'start never runs the clock', 'start() no longer calls env.run')
+    elif not n_tail:
+        res.ok('C11.U8', start, body[last_run], 'after env.run start() only collates and builds its tables')
     # ---- U3 ----------------------------------------------------------------
     order = registration_order(repo)
     names = [cn for cn, _ in order]
